@@ -9,7 +9,7 @@ from .instructions import PrefixToken
 from .instructions import RexToken, ModRmToken, SibToken
 from .instructions import Imm32Token, Imm8Token
 from .instructions import RmMem, RmMemDisp, RmReg32, RmReg64, RmAbs, MovAdr
-from .instructions import Jb, Jbe, Ja, Jae, Je, Jne, Js, NearJump
+from .instructions import Ja, Jae, Je, Jne, Jp, Js, NearJump
 from .instructions import SubImm, AddImm
 from .registers import XmmRegisterSingle, XmmRegisterDouble
 from .registers import Register64, Register32, rsp, eax, rax
@@ -829,14 +829,26 @@ def pattern_rmf64_f64(context, tree, c0):
     return RmXmmRegDouble(c0)
 
 
-jump_opnames = {"<": Jb, ">": Ja, "==": Je, "!=": Jne, ">=": Jae, "<=": Jbe}
+# ucomiss and ucomisd set zf, pf and cf when an operand is nan. Of the
+# jumps on these flags, only ja and jae are not taken in that case.
+jump_opnames = {">": Ja, "==": Je, "!=": Jne, ">=": Jae}
+swapped_opnames = {"<": ">", "<=": ">="}
 
 
-def pattern_cjmp(context, value):
+def pattern_cjmp(context, value, Cmp, c0, c1, Rm):
     op, yes_label, no_label = value
+    if op in swapped_opnames:
+        op = swapped_opnames[op]
+        c0, c1 = c1, c0
+    context.emit(Cmp(c0, Rm(c1)))
     Bop = jump_opnames[op]
     jmp_ins = NearJump(no_label.name, jumps=[no_label])
-    context.emit(Bop(yes_label.name, jumps=[yes_label, jmp_ins]))
+    bop_ins = Bop(yes_label.name, jumps=[yes_label, jmp_ins])
+    if op == "==":
+        context.emit(Jp(no_label.name, jumps=[no_label, bop_ins]))
+    elif op == "!=":
+        context.emit(Jp(yes_label.name, jumps=[yes_label, bop_ins]))
+    context.emit(bop_ins)
     context.emit(jmp_ins)
 
 
@@ -844,13 +856,11 @@ def pattern_cjmp(context, value):
     "stm", "CJMPF32(regfp32,regfp32)", size=6, cycles=3, energy=3
 )
 def pattern_cjmp_f32(context, tree, c0, c1):
-    context.emit(Ucomiss(c0, RmXmmRegSingle(c1)))
-    pattern_cjmp(context, tree.value)
+    pattern_cjmp(context, tree.value, Ucomiss, c0, c1, RmXmmRegSingle)
 
 
 @sse1_isa.pattern(
     "stm", "CJMPF64(regfp64,regfp64)", size=6, cycles=3, energy=3
 )
 def pattern_cjmp_f64(context, tree, c0, c1):
-    context.emit(Ucomisd(c0, RmXmmRegDouble(c1)))
-    pattern_cjmp(context, tree.value)
+    pattern_cjmp(context, tree.value, Ucomisd, c0, c1, RmXmmRegDouble)
